@@ -281,6 +281,29 @@ class Renamed:
         return self.R.assume(*a)
 
 
+def _fold_point(ity, v):
+    """the integer conversion folded end to end (echo command `*<TY>? <literal>`) on the decimal literal that denotes the float
+    `v` exactly: ("Ok", n) | ("Err",) | "n/a" (no literal denotes v) | None (undecided)"""
+    from . import echotable as ET
+    if ieee.is_special(v):
+        if v == ieee.NAN:
+            return "n/a"
+        text = b"1e999" if v == ieee.PINF else b"-1e999"
+    else:
+        text = repr(float(v)).encode()
+        if b"." not in text and b"e" not in text:
+            text += b".0"
+    r = ET.run_message(b"*" + ity.upper().encode() + b"? " + text)
+    if r[0] == "Ok" and r[1] is not None:
+        try:
+            return ("Ok", int(bytes(r[1]).strip()))
+        except ValueError:
+            return None
+    if r[0] == "Err":
+        return ("Err",)
+    return None
+
+
 def run(R, tier, only=None, project=None):
     if "dflt" not in R.configs:
         R.configs.append("dflt")
@@ -405,8 +428,8 @@ def run(R, tier, only=None, project=None):
             else:
                 kinds.add("other:%s" % sym.show(r_))
         shape_ok = shape_ok and kinds == {"trunc", "err", "checked_add", "checked_sub"}
-        R.check(shape_ok, "R07.1", "%s:shape" % ity, "range guards compare v (or v - const) with constants; result = trunc(v), +-1 (checked) under remainder >= 0.5 / <= -0.5",
-                "the float fallback for %s does not have the exact-rounding shape (monotone range guards on v; trunc(v); remainder v - trunc(v) compared with +-0.5; checked_add/checked_sub): results %s, %d range comparisons, %d remainder comparisons" % (ity, sorted(kinds), guard_cmps, rem_cmps), where=cl.span)
+        shape_args = ("R07.1", "%s:shape" % ity, "range guards compare v (or v - const) with constants; result = trunc(v), +-1 (checked) under remainder >= 0.5 / <= -0.5",
+                "the float fallback for %s does not have the exact-rounding shape (monotone range guards on v; trunc(v); remainder v - trunc(v) compared with +-0.5; checked_add/checked_sub): results %s, %d range comparisons, %d remainder comparisons" % (ity, sorted(kinds), guard_cmps, rem_cmps))
         # ---- R07.1 endpoint evaluation
         mx = ieee.max_finite(fmt)
         sub_ = ieee.min_subnormal(fmt)
@@ -434,13 +457,37 @@ def run(R, tier, only=None, project=None):
                 pts.append(("2^%d+0.5-" % (e_ - 1), ieee.float_below(x, fmt)))
                 pts.append(("2^%d+0.5+" % (e_ - 1), ieee.float_above(x, fmt)))
         n_pts = 0
+        n_folded = 0
         bad = []
+        if not shape_ok:
+            # The guards are not in the shape whose monotonicity lets the boundary values speak for every value. The
+            # conversion is then decided by folding it end to end (typed echo machinery of R07.11: the literal through the
+            # lexer, Parameters and TryFrom) on the boundary values and on a dense sample instead: every half-integer and
+            # its two neighbours in windows around 0, MIN and MAX, and powers of two up to the intermediate's precision.
+            for base_ in (F(0), F(lo), F(hi)):
+                for k_ in range(-6, 7):
+                    for x_ in (base_ + k_ + F(1, 2),):
+                        if ieee.rnd(x_, fmt) == x_:
+                            pts.extend([("dense %s" % x_, x_), ("dense %s-" % x_, ieee.float_below(x_, fmt)), ("dense %s+" % x_, ieee.float_above(x_, fmt))])
+                        else:
+                            pts.append(("dense ~%s" % x_, ieee.rnd(x_, fmt)))
+            for e_ in range(1, p + 2):
+                for sgn_ in (1, -1):
+                    x_ = sgn_ * (F(2) ** e_)
+                    pts.extend([("2^%d" % e_, ieee.rnd(x_, fmt)), ("2^%d+" % e_, ieee.float_above(ieee.rnd(x_, fmt), fmt)), ("2^%d-" % e_, ieee.float_below(ieee.rnd(x_, fmt), fmt))])
         for nm, v in pts:
             try:
+                if not shape_ok:
+                    raise Unknown("shape not recognised")
                 got = walk(cl, S, evr, v, inv_discr)
             except Unknown as ex:
-                bad.append((nm, v, "undecidable: %s" % ex, None))
-                continue
+                got = _fold_point(ity, v)
+                if got is None:
+                    bad.append((nm, v, "undecidable: %s" % ex, None))
+                    continue
+                if got == "n/a":
+                    continue          # (a NaN cannot be written as a decimal literal)
+                n_folded += 1
             n_pts += 1
             if ieee.is_special(v):
                 exp = {("Err",)}
@@ -450,6 +497,10 @@ def run(R, tier, only=None, project=None):
             if g not in exp:
                 bad.append((nm, v, got, sorted(exp)))
         R.count("endpoint_evaluations", n_pts)
+        # the shape argument, or - where the code is organised differently - every boundary value and the dense sample decided
+        # by folding, all of them right
+        by_folding = (not shape_ok) and n_folded == n_pts and n_pts >= 60 and not bad
+        R.check(shape_ok or by_folding, shape_args[0], shape_args[1], shape_args[2] if shape_ok else "guards not in the monotone shape: decided by folding the whole conversion on %d boundary and densely sampled values instead" % n_pts, shape_args[3], where=cl.span)
         R.check(not bad, "R07.1", "%s:endpoints" % ity, "%d boundary values of the %s intermediate give the nearest integer or a range error" % (n_pts, fmt),
                 "%s fallback mis-converts boundary values (in %s): %s" % (ity, fmt, "; ".join("%s=%s -> %s, required %s" % (nm, (float(v) if not ieee.is_special(v) else v), got, exp) for nm, v, got, exp in bad[:5])), where=cl.span)
 
